@@ -72,6 +72,7 @@ def initial_state(ex, table, specs, contract, fi, cls):
                 st.assume(z3.Or(v.t == NONE, ex.isinstance_term(v.t, ty.cls)))
             if ty.cls in ('list', 'dict'):
                 st.assume(v.t != NONE)
+                ex.note_dict(v)
                 if ty.cls == 'list':
                     st.assume(st.heap.llen(v.t) >= 0)
         args[p] = v
@@ -130,6 +131,11 @@ def gen_obligations(table, specs, contract, cls):
         if kind == 'return':
             meta['normal_paths'] += 1
             ss.loc['result'] = pay
+            if contract.result is not None and isinstance(pay, V):
+                try:
+                    ss.loc['result'] = sym.coerce(pay, parse_ty(contract.result))
+                except Unsupported:
+                    pass
             for cname, text in contract.ensures:
                 props, nm = clause_props(contract, cname)
                 g = specs.eval_bool(ex, text, ss, fr)
